@@ -405,7 +405,7 @@ def decorate(rng, desc):
     cols = {}
     for u in range(case.O.n):
         if rng.random() < 0.35:
-            cols[str(u)] = rng.choice(["ff0000", "00ff00", "0000ff", "123abc"])
+            cols[str(u)] = rng.choice(["ff0000", "00ff00", "0000ff", "123abc", "000000"])      # explicit black switches a clade back inside a highlighted subtree
     d["ocolors"] = cols
     return d
 
